@@ -192,16 +192,24 @@ func (l c06Lit) class() string {
 		if new(big.Int).Mod(p, c06Pow10(f)).Sign() != 0 {
 			return "si-fraction-not-truncated"
 		}
+	}
+	return ""
+}
+
+// outOfWindow: the written exponent, the fraction length or the adjusted exponent leaves the
+// decimal package's window ±100000.  The implementation must then report an error (spec:
+// "give an error if unable to represent a floating-point value due to overflow"); since /repo
+// commit 1674508 it does.  Accepting such a literal with any value is a violation.
+func (l c06Lit) outOfWindow() bool {
+	switch l.form {
 	case "fpoint", "fexp", "fdot":
 		m, f := l.mant()
 		e := l.exVal()
 		nd := int64(len(m.String()))
 		adj := e - int64(f) + nd - 1
-		if e > 100000 || e < -100000 || f > 100000 || adj > 100000 || adj < -100000 {
-			return "float-literal-exponent-out-of-range"
-		}
+		return e > 100000 || e < -100000 || f > 100000 || adj > 100000 || adj < -100000
 	}
-	return ""
+	return false
 }
 
 // value per the spec (exact), for Direct reporting only; ok=false when the exponent is too large
@@ -427,17 +435,18 @@ func c06Literals(c *Cfg, r *Rng, n int) {
 		// model of the implementation (ParseNum + Decimal)
 		c.Op("O", "lit "+H(s), val)
 		c.Op("I", "litrepr "+H(s), repr)
-		// the specification's denotation of the grammar tree
-		beyond := l.hasEx && (l.exVal() > 200000 || l.exVal() < -200000)
-		if !beyond {
+		// the specification's denotation of the grammar tree; outside the exponent window an
+		// error is the only right answer
+		if l.outOfWindow() {
+			c.Count("lit:out-of-window")
+			c.Direct(val == "err", "literal-out-of-window-accepted",
+				fmt.Sprintf("literal %s (exponent outside the representable window) is accepted as %s instead of being an error", s, val), s)
+		} else {
 			ans := val
 			if q != nil {
 				ans = H(s) + " " + kind + " " + c06RatStr(q)
 			}
 			c.OpTag("O", cls, "litspec "+l.proto(), ans)
-		} else {
-			// cannot expand 10^e: the literal must be an error or … nothing else is right
-			c.Direct(val == "err", cls, fmt.Sprintf("literal %s is accepted as %s", s, val), s)
 		}
 		// the scanner must lex every grammar spelling as one number token
 		_, scanOK := c06Scan(s)
